@@ -1099,6 +1099,82 @@ def rejuvenate_family():
             fail("Rejuvenate: backward proposal density is not evaluated at arguments computed from the NEW trace", w=w, want=want)
 
 
+def adev_family():
+    """C29: exact enumeration (value and derivative), parameter-dependent baselines, independence of consecutive sampling
+    sites (REINFORCE and reparameterised), primal = program value at the sampled randomness, estimate() at the arguments"""
+    from genjax.adev import Dual, baseline, expectation, flip_enum, flip_reinforce, normal_reinforce, normal_reparam, add_cost
+    payoff = lambda b: jnp.where(b, -1.0, 1.0)
+
+    @expectation
+    def enum_plain(p):
+        return payoff(flip_enum(p))
+
+    @expectation
+    def enum_param_baseline(p):
+        return payoff(baseline(flip_enum)(2.0 * p + 0.5, p))
+
+    @expectation
+    def reinforce_param_baseline(p):
+        return payoff(baseline(flip_reinforce)(2.0 * p + 0.5, p))
+
+    @expectation
+    def enum_cond_cost(p):
+        b = flip_enum(p)
+        add_cost(jnp.where(b, p * p, 0.0))
+        return jax.lax.cond(b, lambda: 2.0 * p, lambda: 0.5)
+    for p in (0.2, 0.7):
+        for name, prog, val, der in (("flip_enum", enum_plain, 1 - 2 * p, -2.0), ("baseline(flip_enum) with a parameter-dependent baseline", enum_param_baseline, 1 - 2 * p, -2.0),
+                                     ("flip_enum + cond + add_cost", enum_cond_cost, p * 2 * p + (1 - p) * 0.5 + p * p * p, 4 * p - 0.5 + 3 * p * p)):
+            d = prog.jvp_estimate(jrand.key(0), Dual(p, 1.0))
+            if not (close(d.primal, val, tol=1e-5) and close(d.tangent, der, tol=1e-5)):
+                fail("ADEV enumeration: value / derivative of the expectation is not exact", program=name, p=p, primal=d.primal,
+                     tangent=d.tangent, want=(val, der))
+            g = prog.grad_estimate(jrand.key(0), (p,))
+            if not close(g[0] if isinstance(g, (tuple, list)) else g, der, tol=1e-5):
+                fail("ADEV: grad_estimate disagrees with the exact derivative / jvp_estimate", program=name, p=p, grad=g, want=der)
+            if not close(prog.estimate(jrand.key(0), (p,)), val, tol=1e-5):
+                fail("ADEV: Expectation.estimate is not the program's value at the given arguments", program=name, p=p)
+        duals = jax.vmap(lambda k: reinforce_param_baseline.jvp_estimate(k, Dual(p, 1.0)))(jrand.split(jrand.key(1), 6000))
+        if abs(float(jnp.mean(duals.primal)) - (1 - 2 * p)) > 0.06 or abs(float(jnp.mean(duals.tangent)) + 2.0) > 0.3:
+            fail("ADEV REINFORCE with a parameter-dependent baseline is biased", p=p, mean_primal=jnp.mean(duals.primal), mean_tangent=jnp.mean(duals.tangent))
+
+    @expectation
+    def two_reinforce_flips(p):
+        return jnp.where(flip_reinforce(p) != flip_reinforce(p), 1.0, 0.0)
+
+    @expectation
+    def two_reinforce_normals(mu):
+        return (normal_reinforce(mu, 1.0) - normal_reinforce(mu, 1.0)) ** 2
+
+    @expectation
+    def two_reparam_normals(mu):
+        return (normal_reparam(mu, 1.0) - normal_reparam(mu, 1.0)) ** 2
+
+    @expectation
+    def reparam_then_reinforce(mu):
+        return (normal_reparam(mu, 1.0) - normal_reinforce(mu, 1.0)) ** 2
+    if "MvNormalREPARAM" in OB:           # the recorded known finding
+        from genjax.adev import mv_normal_reparam
+
+        @expectation
+        def mvn(mu):
+            return jnp.sum(mv_normal_reparam(mu, jnp.eye(2)))
+        d = mvn.jvp_estimate(jrand.key(0), (Dual(jnp.array([0.76, -0.3]), jnp.array([1.0, 0.0])),))
+        if not close(d.tangent, 1.0, tol=1e-5):
+            fail("MvNormalREPARAM: the pathwise derivative of E[sum x] wrt mu[0] is not 1 (tangents read with tree_primal)", tangent=d.tangent)
+        return
+    keys = jrand.split(jrand.key(2), 3000)
+    for name, prog, arg, want in (("two flip_reinforce sites", two_reinforce_flips, 0.5, 0.5), ("two normal_reinforce sites", two_reinforce_normals, 0.3, 2.0),
+                                  ("two normal_reparam sites", two_reparam_normals, 0.3, 2.0), ("normal_reparam then normal_reinforce", reparam_then_reinforce, 0.3, 2.0)):
+        m = float(jnp.mean(jax.vmap(lambda k: prog.jvp_estimate(k, Dual(arg, 1.0)).primal)(keys)))
+        if abs(m - want) > 0.15 * max(1.0, want):
+            fail("ADEV: consecutive sampling sites do not draw independent randomness (mean of the program value is off)",
+                 program=name, mean=m, want=want)
+        m2 = float(jnp.mean(jax.vmap(lambda k: prog.estimate(k, (arg,)))(keys)))
+        if abs(m2 - want) > 0.15 * max(1.0, want):
+            fail("ADEV: Expectation.estimate does not average to the expectation", program=name, mean=m2, want=want)
+
+
 def hmc_family():
     """C28: momenta (independent standard normals per selected leaf, of the leaf's shape), kinetic energy (sum over all
     elements), alpha = H(start) - H(end) for scalar and vector leaves (L = 1, momenta recovered from the leapfrog equations),
@@ -1310,7 +1386,7 @@ def selection_family():
 
 FAMILIES = [
     (("C19.Mask.", "Mask._or_idx"), mask_algebra_family), (("C18.",), selection_family), ((".Diff.",), diff_family),
-    (("C28.", "sample_momenta"), hmc_family), (("C20.", "FlagOp", "multi_switch", "tree_choose"), staging_family), (("C33.",), invalid_subset_family),
+    (("C29.", "TailCallADEVPrimitive"), adev_family), (("C28.", "sample_momenta"), hmc_family), (("C20.", "FlagOp", "multi_switch", "tree_choose"), staging_family), (("C33.",), invalid_subset_family),
     (("C36.",), stateful_family), (("C09.", "incremental"), incremental_family), (("C04.",), key_family), (("C21.",), pytree_family), (("C25.", "Marginal"), marginal_family), (("C27.", "Rejuvenate"), rejuvenate_family), (("C31.",), time_travel_family), (("C17.",), choice_map_family), (("C26.",), smc_family),
     (("MaskCombinator", "MaskTrace"), mask_family), (("Distribution", "ExactDensity", "C24."), distribution_family),
     (("Dimap",), dimap_family), (("Switch",), switch_family), (("Vmap", "repeat"), vmap_family),
